@@ -341,7 +341,6 @@ class MapRun:
         self.x = bool(case.get("x"))                                   # extras (see map_case)
         self.count = self.x and self.kind == "Tree" and self.kt == "Probe"      # count key comparisons per operation
         self.probe_used = False
-        self.maxcmp = (0, 0)
 
     # -- C03 "lookups, insertions and removals stay logarithmic": Probe_Cmp calls of one operation on a tree of n nodes.
     # The height is at most 2*log2(n+1); twice that plus slack is allowed (an implementation may compare twice per level).
@@ -353,7 +352,6 @@ class MapRun:
         lim = int(4 * math.log2(n + 2)) + 6
         P.add("cmps")
         P.add(line, chk)
-        st_ = self
 
         def chk_c(o, n=n, lim=lim, line=line):
             if not o.startswith("ok "):
@@ -361,8 +359,6 @@ class MapRun:
             c = int(o[3:])
             if c > lim:
                 return "`%s` on a Tree of %d nodes took %d key comparisons (limit %d = 4*log2(n+2)+6): not logarithmic" % (line, n, c, lim)
-            if c * (st_.maxcmp[1] + 2) >= st_.maxcmp[0] * (n + 2) and n >= st_.maxcmp[1]:
-                st_.maxcmp = (c, n)
             return None
         P.add("cmps", chk_c)
         self.events.add("cmp-counted")
